@@ -282,7 +282,9 @@ PROPS = {
     "C19": dict(
         modules=["fe_fetcher"],
         contracts=[f"{FS}:MetricFetcher._synchronize_and_fetch_fallback", f"{FS}:MetricFetcher.fetch_next_with_fallback",
-                   f"{FS}:MetricFetcher._fetch_next"],
+                   f"{FS}:MetricFetcher._fetch_next",
+                   "frequenz.sdk.timeseries.formula_engine._formula_generators._fallback_formula_metric_fetcher:"
+                   "FallbackFormulaMetricFetcher.start"],
         lemmas=[],
         bounded=[],
         level="proof",
@@ -294,6 +296,8 @@ PROPS = {
         assumptions=[EXTRACTION, "sample values in IEEE mode (NaN / inf are 'missing'); timestamps as integer grid ticks",
                      "streams are scripted collaborators implementing the channel model (receive returns the next sample or "
                      "raises ReceiverStoppedError / ReceiverError)",
+                     "the no-loss part of the stream model for the fallback rests on FallbackFormulaMetricFetcher.start() "
+                     "subscribing once with at least the engine's default buffer: that is a proved postcondition of start()",
                      "end-to-end 'output equals the true value' additionally needs C05/C06; not re-proved here"],
     ),
     "C06": dict(
